@@ -761,9 +761,14 @@ func (c *Connection) write(ctx context.Context, msg Message) error {
 		}
 		err = s.shuttingDown(ErrServerClosing)
 	})
-	if err == nil {
-		err = c.writer.Write(ctx, msg)
+	if err != nil {
+		// The message was refused because the connection is shutting down. The
+		// Writer was not used, so this is not evidence of a broken Writer: it must
+		// not set writeErr, which would cancel every in-flight incoming request
+		// while Close is waiting for those requests to complete.
+		return err
 	}
+	err = c.writer.Write(ctx, msg)
 
 	// For cancelled or rejected requests, we don't set the writeErr (which would
 	// break the connection). They can just be returned to the caller.
